@@ -73,6 +73,10 @@ func main() {
 			}
 			ob := &Obligation{Func: name, Name: name + "/post/contract-without-function", Short: "contract-without-function", Status: "failed", Solver: "static",
 				Info: "the contract file has a contract for " + c.FuncName + ", but the package has no such function any more (renamed, removed, or its receiver changed): what the contract states is not established", Props: c.Props}
+			if c.Broken != "" {
+				ob.Name, ob.Short = name+"/post/contract-does-not-compile", "contract-does-not-compile"
+				ob.Info = "the contract of " + c.FuncName + " no longer compiles against the sources (" + c.Broken + "): what it states is not established"
+			}
 			results = append(results, &FuncResult{Func: name, Key: name, HasContract: true, Props: c.Props, Obligations: []*Obligation{ob}})
 		}
 	}
